@@ -182,6 +182,27 @@ func runC11(cfg *runCfg) error {
 	doc := &CasesDoc{Property: "C11", Seed: cfg.Seed, Tier: cfg.Tier, Dist: map[string]int{}}
 	var replay *c11Case
 	if cfg.Replay != "" {
+		var kind struct {
+			Case struct {
+				Kind  string          `json:"kind"`
+				Input json.RawMessage `json:"input"`
+			} `json:"case"`
+		}
+		if err := readJSON(cfg.Replay, &kind); err == nil && kind.Case.Kind == "http-batch-one-cache" {
+			bc := &c11BatchCase{}
+			if err := json.Unmarshal(kind.Case.Input, bc); err != nil {
+				return err
+			}
+			bid := 0
+			if err := c11BatchCases(cfg, r, sh, doc, &bid, 1, bc); err != nil {
+				return err
+			}
+			if err := sh.Flush(); err != nil {
+				return err
+			}
+			doc.Shards = sh.Files
+			return doc.Write(cfg.Out)
+		}
 		var rp struct {
 			Case struct {
 				Input c11Case `json:"input"`
@@ -414,6 +435,17 @@ func runC11(cfg *runCfg) error {
 		obsj := map[string]interface{}{"plans_before": before, "plans_after": after, "solo_calls": ncalls, "stray_calls": stray}
 		doc.Cases = append(doc.Cases, CaseInfo{ID: id, Kind: "concurrent-requests", Input: cs, Observed: obsj,
 			Nontrivial: len(cs.Reqs) >= 3 && ncalls >= 4, Key: string(key)})
+	}
+	if replay == nil {
+		// the operations of one HTTP batch, through one plan cache
+		nb := 30
+		if cfg.Tier == "thorough" {
+			nb = 300
+		}
+		bid := n
+		if err := c11BatchCases(cfg, rand.New(rand.NewSource(cfg.Seed+131)), sh, doc, &bid, nb, nil); err != nil {
+			return err
+		}
 	}
 	if err := sh.Flush(); err != nil {
 		return err
